@@ -83,9 +83,9 @@ PARSE_TRUST = ['parser unit: std::vector<Token>::iterator is the index-based mod
 
 prop('C16', level='proof',
      claim='Mechanisms: a RUN of a name that is not in the program table is an UNKNOWN_PROGRAM_NAME error and emits no call of its own; an emitted EXEC enters the entry recorded in the table for that name (dispatchValue); the table entry of a routine is written by popSymbols, i.e. when the routine is finished, with its own entry/stack map/arity/frame size; every LOOP advances the loop number (private counter name) and ends with "counter := counter - 1; jump to the loop head" on one and the same counter register (dispatchLoop). Hence calls only reach finished routines: the call graph is acyclic (meta-argument).',
-     note='dispatchValue and popSymbols are BOUNDED stand-ins (<= 2 call arguments; <= 2 marks / <= 2..3 registers / small tables). dispatchProgram (popSymbols is called after the body) is not under contract; that funcAddrs has no other writer is a token scan. The step count formula for LOOP programs is not decided.',
-     explanation='Groups genU_dispatchValue, genU_popSymbols, gen_dispatchLoop.',
-     not_decided='dispatchProgram ordering; whole call-graph argument; halting bound', trusted=GEN_TRUST)
+     note='dispatchValue and popSymbols are BOUNDED stand-ins (<= 2 call arguments; <= 2 marks / <= 2..3 registers / small tables). dispatchProgram is under contract with its callees replaced: popSymbols is called exactly once, after the whole body including RET exists, with the instruction after the skip-jump as entry (ghost record of the call). That funcAddrs has no other writer is not checked mechanically. The step count formula for LOOP programs is not decided.',
+     explanation='Groups genU_dispatchValue, genU_popSymbols, gen_dispatchLoop, gen_dispatchProgram.',
+     not_decided='whole call-graph argument; halting bound', trusted=GEN_TRUST)
 
 prop('C08', level='proof',
      claim='The two breakpoint tables are only changed together and by exact inverse deltas: GenState::breakpoint appends one site to code, one entry to line_info and the site to the list of the current position (a new entry when there is none); GenState::removeTopPotBreak removes exactly the top site from both tables (erasing the key only when its list becomes empty); GenState::advanceLine emits at most one site and none for the hidden standard-macro file; VM::setBreakPoint succeeds exactly for listed locations. The global invariant "tables are inverse" follows by induction over these deltas (meta-argument).',
